@@ -6,10 +6,10 @@
    in every mode, at any position. *)
 From Coq Require Import Lia ZifyBool ZifyN ZifyNat.
 Require Import BV.Model.Base BV.Model.SrcB BV.Model.Length BV.Model.Tag BV.Model.Twos BV.Model.Int
-               BV.Model.Content BV.Model.OctStr BV.Model.Encode BV.Model.Prog.
+               BV.Model.Content BV.Model.OctStr BV.Model.Encode BV.Model.Prog BV.Model.BitStr BV.Model.Oid.
 Require Import BV.Proofs.Bits BV.Proofs.SrcBP BV.Proofs.LengthP BV.Proofs.TagP BV.Proofs.ContentP BV.Proofs.OctGrammarP
                BV.Proofs.WinP BV.Proofs.TotalP BV.Proofs.DeltaP BV.Proofs.IntP BV.Proofs.IntEncP
-               BV.Proofs.EncodeP BV.Proofs.GrammarP BV.Proofs.EncGrammarP BV.Proofs.TypedP.
+               BV.Proofs.EncodeP BV.Proofs.GrammarP BV.Proofs.EncGrammarP BV.Proofs.TypedP BV.Proofs.BitStrP BV.Proofs.OidP.
 Arguments N.add : simpl never. Arguments N.sub : simpl never.
 Arguments N.ltb : simpl never. Arguments N.leb : simpl never. Arguments N.eqb : simpl never.
 Arguments N.min : simpl never.
@@ -103,21 +103,27 @@ Proof.
 Qed.
 
 (* ---- schemas, values, encoding and typed decoding ---- *)
-Inductive leafkind := LInt (ty : N) | LBool | LNull.
+Inductive leafkind := LInt (ty : N) | LBool | LNull | LOid | LBits.
 Inductive schema := SLeaf (t : tag) (k : leafkind) | SSeq (t : tag) (fields : list schema).
-Inductive sval := VInt (v : Z) | VBool (b : bool) | VNull | VSeq (vs : list sval) | VOpt (o : option sval).
+Inductive sval := VInt (v : Z) | VBool (b : bool) | VNull | VSeq (vs : list sval) | VOpt (o : option sval)
+  | VBytes (c : list N) | VBits (unused : N) (bits : list N).
 
 Definition lop (k : leafkind) (m : mode) : M sval :=
   match k with
   | LInt ty => v <- int_accessor ty ;; ret (VInt v)
   | LBool => b <- to_bool m ;; ret (VBool b)
   | LNull => to_null ;;; ret VNull
+  | LOid => c <- oid_from_prim ;; ret (VBytes c)
+  | LBits => v <- bit_from_prim m ;; ret (VBits (fst v) (snd v))
   end.
 Definition lenc (k : leafkind) (v : sval) : option (list N) :=
   match k, v with
   | LInt ty, VInt x => if (ty <? 10) && in_range (ty_signed ty) (ty_width ty) x then Some (enc_int ty x) else None
   | LBool, VBool b => Some (enc_bool b)
   | LNull, VNull => Some []
+  | LOid, VBytes c => if octets_ok c && oid_ok c then Some c else None
+  (* BIT STRING values of at most 999 data octets (the primitive form every mode accepts) *)
+  | LBits, VBits u c => if (u <=? 7) && negb ((len c =? 0) && (0 <? u)) && (len (u :: c) <=? 1000) then Some (u :: c) else None
   | _, _ => None
   end.
 
@@ -212,11 +218,18 @@ Qed.
 
 Lemma leaf_law k m v c : lenc k v = Some c -> prim_decode (lop k m) c = Ok v.
 Proof.
-  destruct k as [ty| |], v as [x|b| |vs|o]; cbn [lenc lop]; try discriminate.
+  destruct k as [ty| | | |], v as [x|b| |vs|o|cc|u bs]; cbn [lenc lop]; try discriminate.
   - destruct ((ty <? 10) && in_range (ty_signed ty) (ty_width ty) x) eqn:E; [|discriminate]. intros [= <-].
     apply andb_prop in E as [E1 E2]. rewrite prim_decode_map, (int_roundtrip ty x ltac:(lia) E2). reflexivity.
   - intros [= <-]. rewrite prim_decode_map, bool_roundtrip. reflexivity.
   - intros [= <-]. reflexivity.
+  - destruct (octets_ok cc && oid_ok cc) eqn:E; [|discriminate]. intros [= <-]. apply andb_prop in E as [E1 E2].
+    rewrite prim_decode_map, (oid_from_prim_spec cc E1), E2. reflexivity.
+  - destruct ((u <=? 7) && negb ((len bs =? 0) && (0 <? u)) && (len (u :: bs) <=? 1000)) eqn:E; [|discriminate]. intros [= <-].
+    apply andb_prop in E as [E E3]. apply andb_prop in E as [E1 E2].
+    rewrite (prim_decode_map (bit_from_prim m) (fun v => VBits (fst v) (snd v))), bit_from_prim_spec. unfold bit_decode_spec.
+    replace (1000 <? len (u :: bs)) with false by lia. rewrite andb_false_r. replace (7 <? u) with false by lia.
+    apply negb_true_iff in E2. rewrite E2. reflexivity.
 Qed.
 Lemma Win_lop k m : Win (lop k m).
 Proof.
@@ -224,6 +237,8 @@ Proof.
   - apply Win_bind; [apply Win_int_accessor|]. intro. apply Win_ret.
   - apply Win_bind; [apply Win_to_bool|]. intro. apply Win_ret.
   - apply Win_bind; [apply Win_to_null|]. intro. apply Win_ret.
+  - apply Win_bind; [|intro; apply Win_ret]. unfold oid_from_prim. apply Win_bind; [apply Win_take_all|]. intro c. destruct (oid_check_content c); win_auto.
+  - apply Win_bind; [|intro; apply Win_ret]. unfold bit_from_prim. win_auto.
 Qed.
 Lemma St_lop k m z : Safe (St true z) (lop k m) (fun _ => St true z).
 Proof.
@@ -234,6 +249,14 @@ Proof.
     repeat (apply Safe_if); try apply Safe_cerr; apply Safe_ret; auto.
   - eapply Safe_bind with (Q := fun _ => St true z); [|intro; apply Safe_ret; auto].
     unfold to_null. eapply Safe_bind; [apply St_remaining|]. intro r. apply Safe_if; [apply Safe_cerr|apply Safe_ret; auto].
+  - eapply Safe_bind with (Q := fun _ => St true z); [|intro; apply Safe_ret; auto].
+    unfold oid_from_prim. eapply Safe_bind; [apply St_take_all|]. intro c.
+    destruct (oid_check_content c); try apply Safe_cerr. apply Safe_ret; auto.
+  - eapply Safe_bind with (Q := fun _ => St true z); [|intro; apply Safe_ret; auto].
+    unfold bit_from_prim. eapply Safe_bind; [apply St_remaining|]. intro r. apply Safe_if; [apply Safe_cerr|].
+    eapply Safe_bind; [apply (St_take_u8 true z)|]. intro u. apply Safe_if; [apply Safe_cerr|].
+    eapply Safe_bind; [apply St_remaining|]. intro r2. apply Safe_if; [apply Safe_cerr|].
+    eapply Safe_bind; [apply St_take_all|]. intro. apply Safe_ret; auto.
 Qed.
 
 (* ---- the composition theorem ---- *)
@@ -329,7 +352,7 @@ Qed.
 Lemma RT_seq t fs : Forall RT fs -> RT (SSeq t fs).
 Proof.
   intros HF v e m d Hok He Hw. pose proof (RTL_of_Forall fs HF) as HL.
-  destruct v as [x|b| |vs|o]; try discriminate. rewrite enc_s_seq in He.
+  destruct v as [x|b| |vs|o|cc|u bs]; try discriminate. rewrite enc_s_seq in He.
   destruct (enc_l fs vs) as [es|] eqn:El; [|discriminate]. injection He as <-.
   apply schema_ok_seq in Hok as [[Hleg Heov] Hoks].
   remember (ESeq es) as be eqn:Ebe. cbn [enc_write] in Hw. subst be.
